@@ -2,7 +2,7 @@
    Statements only; every proof is [exact <lemma>] (proofs/Framing_proofs.v, proofs/Varint_proofs.v).
    Model: model/Framing.v (msgio length-prefixed frames, StreamMsg{data|error}, incremental reader).
    Non-vacuity: ex_typed, ex_session, ex_neither, ex_negative_code, ex_limit, ex_chunking_dead,
-   ex_oversized, ex_epilogue, ex_header (Framing_proofs), varint_examples, utf8_examples (Varint_proofs). *)
+   ex_oversized, ex_epilogue, ex_header, ex_covered_cases (Framing_proofs), varint_examples, utf8_examples (Varint_proofs). *)
 From Coq Require Import String List NArith ZArith Bool.
 From MevVerif Require Import lib.Bytes lib.Varint gen.Generated model.Framing check.Check_C13 proofs.Varint_proofs proofs.Framing_proofs.
 Import ListNotations.
@@ -172,6 +172,55 @@ Theorem C13_readahead_refuted :
     fst (pull_seq aheadA 0 [true; false] mr_init mr_init (stream_of its)) = [PFrame (x "0a050a016b1200"); PEnd].
 Proof. exact two_readers_readahead_refuted. Qed.
 Print Assumptions C13_readahead_refuted.
+
+(* The same for the other case kinds: whenever the observation of a case agrees with the model's
+   prediction ([agrees c = true], i.e. the case is not a mismatch) the property checker reports
+   no violation.  Without further premise for sessions that are not honest round trips (hostile
+   streams, mixed read kinds) and for end-to-end handler errors; for near-limit frames with the
+   predicted payload equality (req = true); for writes behind a stalled peer with every frame
+   within the size limit. *)
+Theorem C13_checker_accepts_agreeing_dishonest :
+  forall wops wseen stream pat rops rseen hdrs typed_ok,
+  agrees (Session false wops wseen stream pat rops rseen hdrs typed_ok) = true ->
+  violation (Session false wops wseen stream pat rops rseen hdrs typed_ok) = [].
+Proof. exact checker_accepts_agreeing_dishonest. Qed.
+Print Assumptions C13_checker_accepts_agreeing_dishonest.
+
+Theorem C13_checker_accepts_agreeing_e2e : forall e o,
+  agrees (E2E e o) = true -> violation (E2E e o) = [].
+Proof. exact checker_accepts_agreeing_e2e. Qed.
+Print Assumptions C13_checker_accepts_agreeing_e2e.
+
+Theorem C13_checker_accepts_agreeing_big : forall n whead wlen racc rlen,
+  agrees (Big n whead wlen racc rlen true) = true -> violation (Big n whead wlen racc rlen true) = [].
+Proof. exact checker_accepts_agreeing_big. Qed.
+Print Assumptions C13_checker_accepts_agreeing_big.
+
+Theorem C13_checker_accepts_agreeing_stalled : forall inners calls wire,
+  Forall (fun i => len_of (data_body i) <= max_msg) inners ->
+  agrees (StalledWrites inners calls wire) = true -> violation (StalledWrites inners calls wire) = [].
+Proof. exact checker_accepts_agreeing_stalled. Qed.
+Print Assumptions C13_checker_accepts_agreeing_stalled.
+
+(* Partial: abandoned-read cases only for inner payloads that are their own unknown-field image
+   (what protobuf-go Marshal produces: minimal tags, no groups) and within the size limit.  For
+   other inner payloads the checker's expectation (the written bytes) and the model's prediction
+   (the normalised bytes) differ, and the implication does not hold. *)
+Theorem C13_checker_accepts_agreeing_abandon_partial : forall inners reqs got,
+  Forall canonical_inner inners ->
+  agrees (Abandon inners reqs got) = true -> violation (Abandon inners reqs got) = [].
+Proof. exact checker_accepts_agreeing_abandon. Qed.
+Print Assumptions C13_checker_accepts_agreeing_abandon_partial.
+
+(* At the level of the lists bin/check evaluates: if no case of a list is a mismatch, the list has
+   no violation.  Partial: honest sessions are excluded here ([covered]); for them the statement is
+   C13_checker_accepts_model, in the form the model itself produces them (an arbitrary honest
+   observation would in addition need canonical inner payloads and a header oracle consistent
+   with the canonical forms the driver supplies). *)
+Theorem C13_violations_silent_on_agreeing_partial : forall cs : list case,
+  Forall (fun c => covered (cb c)) cs -> mismatches cs = [] -> violations cs = [].
+Proof. exact violations_silent_on_agreeing. Qed.
+Print Assumptions C13_violations_silent_on_agreeing_partial.
 
 (* What the CALLERS get: ReadMsg calls are served with the delivered frames in call order.  With
    the explicit premise that no call is abandoned ([no_abandon]: every read runs to completion),
